@@ -82,7 +82,9 @@ def sim_cases(draw, sims=SIMS, coarse=False):
         case["algo"] = draw(st.sampled_from(["elliptic", "newmark", "midpoint", "hht"]))
     elif sim == "hyperelastic":
         case["model"] = dict(law=draw(st.sampled_from(HYPER)), K=g(1, 12, 4), K1=g(1, 8, 4), K2=g(0, 8, 4),
-                             lmbda=g(0, 12, 4), mu=g(1, 8, 4), thickness=draw(st.sampled_from([1.0, 0.5])))
+                             lmbda=g(0, 12, 4), mu=g(1, 8, 4), thickness=draw(st.sampled_from([1.0, 0.5])),
+                             # active fibre stress tau t (x) t: none, one value, or a field with passive (tau = 0) elements
+                             active=draw(st.sampled_from([None, None, "scalar", "field", "field"])), tau=g(-4, 4, 8), fibre=draw(st.integers(0, 11)))
         case["algo"] = draw(st.sampled_from(["elliptic", "newmark", "midpoint"]))
     elif sim == "inelastic":
         case["model"] = dict(E=draw(st.sampled_from([210.0, 7.0e4])), v=g(0, 9, 20), ey=draw(st.sampled_from([1e-3, 5e-3])),
@@ -232,7 +234,21 @@ def build(case, inject=True, max_nodes=450) -> Ctx:
                                                                 thickness=float(m["thickness"])))
             kind = f"weakforms{n}"
         elif sim == "hyperelastic":
-            simu = Simulations.HyperElastic(mesh, hyper_law(m, dim))
+            mat_h = hyper_law(m, dim)
+            groups_h = mesh.Get_list_groupElem(mesh.dim)
+            if m.get("active") and len(groups_h) == 1 and float(m.get("tau", 0.0)) != 0.0:
+                from EasyFEA import MatrixType as _MT
+                from EasyFEA.FEM import FeArray as _Fe
+
+                g_h = groups_h[0]
+                nPg_h = g_h.Get_gauss(_MT.rigi).nPg
+                ang = float(m.get("fibre", 0)) * np.pi / 6.0
+                t_h = np.array([np.cos(ang), np.sin(ang), 0.4 if dim == 3 else 0.0])
+                mat_h.Set_active_stress_vec(_Fe.asfearray(np.tile(t_h, (g_h.Ne, nPg_h, 1))))
+                tau = float(m["tau"])
+                # a field: every other element is passive (tau = 0 there)
+                mat_h.active_stress = tau if m["active"] == "scalar" else tau * (np.arange(g_h.Ne) % 2).astype(float)
+            simu = Simulations.HyperElastic(mesh, mat_h)
             simu.rho = 1.5
         elif sim == "inelastic":
             simu = Simulations.InElastic(mesh, inelastic_law(m, dim))
@@ -353,7 +369,15 @@ def tensor_fields(ctx, which):
                 r2 = np.sqrt(2.0)
                 f = np.stack([E[..., 0, 0], E[..., 1, 1], E[..., 2, 2], r2 * E[..., 1, 2], r2 * E[..., 0, 2], r2 * E[..., 0, 1]], axis=-1)
             else:
-                f = simu._Calc_SecondPiolaKirchhoff(groupElem=g)
+                # S = dW/de of the law at the state (+ the active fibre stress the law was given), from the model's own functions -
+                # not through the simulation's result function
+                from EasyFEA import MatrixType
+                from EasyFEA.Models.HyperElastic._state import HyperElasticState
+
+                st_h = HyperElasticState(g, np.asarray(simu.displacement, float), MatrixType.rigi)
+                f = np.asarray(simu.material.Compute_dWde(st_h), float)
+                if np.any(np.asarray(simu.material.active_stress) != 0.0):
+                    f = f + np.asarray(simu.material.Compute_active_stress(st_h), float)
         elif sim == "inelastic":
             eps = simu._Calc_Epsilon_e_pg(np.asarray(simu.displacement, float), g)
             f = eps if which == "strain" else simu.material.Compute_stress(eps, ctx.z[g.elemType].copy())
